@@ -18,6 +18,9 @@ func runR(sc *scen.RScen, fast bool, keep bool) (*scen.RRec, *kern.Log) {
 
 func genSynthParams(r *kern.Rng, maxOut int) *ref.SynthParams {
 	p := &ref.SynthParams{}
+	if maxOut < 1 {
+		maxOut = 1
+	}
 	switch r.Weighted(4, 3, 2, 1) {
 	case 0:
 		p.OutLen = 1 + r.Intn(3000)
